@@ -19,6 +19,7 @@
 # Answer: observations per op (every op lists  fwd:<src>:<fn>:<tickfn>  for each burst handed to forward_msg; the race
 # op also  at:<boundary the tick was parked at | after>  and  points:<n>  = number of boundaries the tick went through)
 # | ports | state, as world_harness.  The Lean driver answers the same lines (verb sched.run, Driver/WorldSched.lean).
+from excname import exc_name
 import os, sys, threading
 os.environ["WORLD_TRACE"] = "1"
 sys.path.insert(0, os.path.dirname(os.path.abspath(__file__)))
@@ -202,7 +203,7 @@ def race(app, k, t, mode="R"):
         try:
             gated()
         except Exception as e:
-            excs.append(glabel + ":" + type(e).__name__)
+            excs.append(glabel + ":" + exc_name(e))
         finally:
             sys.settrace(None)
             GATE.active = False
@@ -215,7 +216,7 @@ def race(app, k, t, mode="R"):
     try:
         other()
     except Exception as e:
-        excs.append(olabel + ":" + type(e).__name__)
+        excs.append(olabel + ":" + exc_name(e))
     GATE.released = True
     GATE.go.release()
     th.join(30)
@@ -238,7 +239,7 @@ def run_line(line):
     try:
         app = wh.build(extra)
     except Exception as e:
-        return "cfgerr:" + type(e).__name__
+        return "cfgerr:" + exc_name(e)
     for trx in app.trx_list.trx_list:
         # every mutex of the transceiver object or of a helper object it owns, under whatever (private) name
         locks = wh.reachable(trx, lambda x: type(x).__name__ in ("lock", "RLock", "_RLock"), depth_max=3)
@@ -282,7 +283,7 @@ def main():
         try:
             print(run_line(line))
         except Exception as e:
-            print("HARNESS-EXC %s %s" % (type(e).__name__, e))
+            print("HARNESS-EXC %s %s" % (exc_name(e), e))
         sys.stdout.flush()
 
 
